@@ -441,7 +441,12 @@ class Parser:
                     self.err('duplicate_command', 'rule has more than one command', l)
                 raise Unsure('duplicate binding in rule')
             seen[k] = pieces
-        for k in ('command', 'rspfile', 'rspfile_content'):
+        if 'command' in seen and not seen['command']:
+            # 'command =' with nothing after it: the manual calls the command "required" and there is nothing to run; a rule like
+            # this has no command (ninja says: expected 'command =' line).  A value that merely EVALUATES to nothing is a
+            # different matter and is accepted.
+            self.err('missing_command', "rule %r has an empty 'command'" % name, line)
+        for k in ('rspfile', 'rspfile_content'):
             if k in seen and not seen[k]:
                 raise Unsure('rule binding %s present but empty: does it count as given?' % k)
         if 'command' not in seen:
